@@ -7,6 +7,8 @@ queries, by get_zone_intervals, and against the zone's advertised min/max offset
 """
 from __future__ import annotations
 
+import itertools
+
 from pyoda_time import DateTimeZone, Instant, Interval, Offset
 
 from vf.core.evidence import Acc, exc_origin
@@ -234,10 +236,8 @@ def _zone_intervals(acc, zc, z, idx, a, b, use_interval, exp=None):
         exp = [t for t in exp if (t[0] is None or t[0] < b) and (t[1] is None or t[1] > a)]
     try:
         ia, ib = zw.mk_instant(a), zw.mk_instant(b)
-        if use_interval:
-            got = [zw.iv_tuple(x) for x in z.get_zone_intervals(interval=Interval(start=ia, end=ib))]
-        else:
-            got = [zw.iv_tuple(x) for x in z.get_zone_intervals(start=ia, end=ib)]
+        gen = z.get_zone_intervals(interval=Interval(start=ia, end=ib)) if use_interval else z.get_zone_intervals(start=ia, end=ib)
+        got = [zw.iv_tuple(x) for x in itertools.islice(gen, len(exp) + 2)]     # bounded: a broken generator may never stop
         acc.count(evaluations=1, transitions=len(got))
         if got != exp:
             i = 0
@@ -326,7 +326,7 @@ def _fixed_item(offsets):
             if z.min_offset.seconds != oo or z.max_offset.seconds != oo:
                 zc.v("fixed/minmax", "fixed zone %s advertises [%d, %d]" % (name, z.min_offset.seconds, z.max_offset.seconds), offset=o)
             w = zw.walk(z, MIN_NS, MAX_NS)
-            got = [zw.iv_tuple(x) for x in z.get_zone_intervals(start=Instant.min_value, end=Instant.max_value)]
+            got = [zw.iv_tuple(x) for x in itertools.islice(z.get_zone_intervals(start=Instant.min_value, end=Instant.max_value), 3)]
             acc.count(evaluations=2, transitions=2)
             if w.error or w.tuples != [exp] or got != [exp]:
                 zc.v("fixed/walk", "fixed zone %s: walk gives %r, get_zone_intervals gives %r" % (name, w.tuples[:3], got[:3]), offset=o)
